@@ -201,6 +201,9 @@ func domain(t reflect.Type, noInvalid bool, depth int) []reflect.Value {
 		vs = append(vs, vals("A", `"`)...)
 		if !noInvalid {
 			vs = append(vs, reflect.ValueOf("\xed\xa0\x80"))
+			// one string per class of ill-formed UTF-8: beyond U+10FFFF (F4 90.., F5..F7 leads), five-byte form, overlong
+			// two- and four-byte forms, truncated sequences, stray continuation byte
+			vs = append(vs, vals("\xf4\x90\x80\x80", "a\xf5\x80\x80\x80b", "\xf7\xbf\xbf\xbf", "\xf8\x88\x80\x80\x80", "\xc0\xaf", "\xf0\x80\x80\x80", "\xe2\x82", "\xf0\x9f\x98", "\x80")...)
 		}
 		return conv(vs, t)
 	case reflect.Slice:
